@@ -929,6 +929,138 @@ def w_history(failure, tier):
     return dict(found=False, note='writer histories: %d histories of add/delete/commit/rollback/restart/torn append over 4 ids agree with the dictionary model' % len(cases))
 
 
+# ---------------------------------------------------------------- U65 two live writer handles
+def w_two_writers(failure, tier):
+    """histories over TWO writer handles of one index that are alive at the same time: the committed contents must be those of
+    the calls in the order they were made (C04: 'possibly spread over several writer handles')"""
+    skip = set((failure or {}).get('skip_cases') or [])
+    if 'second-live-writer-handle' in skip:
+        return dict(found=False, note='two writer handles: the cases of this generator are an open known finding (skipped)')
+    def doc(i, v):
+        return {"_id": i, "body": "v%d" % v}
+    cases = [
+        ('w1.add(a); w2 = writer(); w1.commit(); w1.delete(a); w1.commit(); w2.add(b); w2.commit()',
+         [["add", doc("a", 1)], ["open2"], ["commit"], ["del", "a"], ["commit"], ["add2", doc("b", 1)], ["commit2"]], [("b", '"v1"')]),
+        ('w1.add(a); w2 = writer(); w1.rollback(); w2.add(b); w2.commit()',
+         [["add", doc("a", 1)], ["open2"], ["rollback"], ["add2", doc("b", 1)], ["commit2"]], [("b", '"v1"')]),
+        ('w2 = writer(); w1.add(a); w2.add(b); w1.commit(); drop w2; process dies; reopen; commit',
+         [["open2"], ["add", doc("a", 1)], ["add2", doc("b", 1)], ["commit"], ["drop2"], ["restart"]], [("a", '"v1"'), ("b", '"v1"')]),
+    ]
+    res = drive('history', [_json.dumps({"ops": c[1]}).encode() for c in cases])
+    for (what, ops, want), r in zip(cases, res):
+        if not r.startswith('OK '):
+            return dict(found=True, cmd='%s history <<< hex(json)' % BIN, case='second-live-writer-handle', input=what, observed=r[:300], expected='the index stays usable')
+        got = sorted((a, b) for a, b in _json.loads(r[3:])['live'])
+        if got != sorted(want):
+            return dict(found=True, cmd='%s history <<< hex(json)' % BIN, case='second-live-writer-handle', input=what,
+                        observed='live documents %s' % got, expected='%s' % sorted(want))
+    return dict(found=False, note='two writer handles: %d histories agree with the order of the calls' % len(cases))
+
+
+# ---------------------------------------------------------------- U66 a queued document can be committed
+def w_oversize(failure, tier):
+    """a document whose stored form is larger than the document store's cap (32 MiB): either it is refused when it is queued,
+    or the commit succeeds - a queued document must never make commits fail"""
+    skip = set((failure or {}).get('skip_cases') or [])
+    if 'oversize-document-blocks-commits' in skip:
+        return dict(found=False, note='oversize document: the case of this generator is an open known finding (skipped)')
+    big = "x" * (32 * 1024 * 1024 + 16)
+    ops = [["add", {"_id": "big", "body": big}], ["commit"], ["add", {"_id": "small", "body": "alpha"}], ["commit"]]
+    res = drive('history', [_json.dumps({"ops": ops}).encode()])
+    r = res[0]
+    if not r.startswith('OK '):
+        return dict(found=True, cmd='%s history <<< hex(json)' % BIN, case='oversize-document-blocks-commits', input='add a document with a body of 32 MiB + 16 bytes, commit, add a small document, commit', observed=r[:300], expected='the index stays usable')
+    out = _json.loads(r[3:])
+    log = out.get('log') or []
+    if any('commit failed' in l for l in log) and not any(l.startswith('add failed') for l in log):
+        return dict(found=True, cmd='%s history <<< hex(json)' % BIN, case='oversize-document-blocks-commits',
+                    input='add a document with a body of 32 MiB + 16 bytes (accepted), commit, add a small document, commit',
+                    observed='log %s; live documents %s' % ([l[:120] for l in log], [a for a, _ in out['live']]),
+                    expected='the big document refused when it is queued, or every commit succeeds')
+    return dict(found=False, note='oversize document: refused at add time or committed; no commit fails because of it')
+
+
+# ---------------------------------------------------------------- U68 request-sized loops and lists
+def w_hostile_aggs(failure, tier):
+    """aggregation requests whose bounds, interval or `predict` are extreme: each search must come back - with a result or an
+    error - within a few seconds, and must not panic"""
+    add = {"numeric_fields": [{"name": "n", "i64": True, "fast": True, "stored": True}]}
+    docs = [{"_id": "d%d" % i, "body": "alpha", "n": i} for i in range(4)]
+    cases = [
+        ('moving_avg predict 2^64-1', {"h": {"type": "histogram", "field": "n", "interval": 1.0,
+                                            "aggs": {"m": {"type": "moving_avg", "buckets_path": "_count", "window": 2, "predict": 18446744073709551615}}}}),
+        ('date_histogram fixed_interval 0s with extended_bounds', {"d": {"type": "date_histogram", "field": "n", "fixed_interval": "0s", "extended_bounds": {"min": "0", "max": "10"}}}),
+        ('histogram extended_bounds 1e19', {"h": {"type": "histogram", "field": "n", "interval": 1.0, "extended_bounds": {"min": 1e19, "max": 1e19}}}),
+        ('histogram extended_bounds 0 .. 1e15', {"h": {"type": "histogram", "field": "n", "interval": 1.0, "extended_bounds": {"min": 0.0, "max": 1e15}}}),
+    ]
+    n = 0
+    for what, aggs in cases:
+        req = dict(REQ_BASE, query={"type": "match_all"}, limit=1, aggs=aggs)
+        data = _json.dumps({"schema": None, "schema_add": add, "batches": [docs], "requests": [req]}).encode().hex() + '\n'
+        try:
+            p = subprocess.run(['bash', '-c', 'ulimit -v 4000000; exec "$0" search', BIN], input=data, stdout=subprocess.PIPE, stderr=subprocess.PIPE, text=True, timeout=20)
+            line = (p.stdout.split('\n') or [''])[0]
+        except subprocess.TimeoutExpired:
+            return dict(found=True, cmd='%s search <<< hex(json)' % BIN, input='4 documents with an i64 field n; aggregation %s' % what,
+                        observed='no answer within 20 s (the search does not return)', expected='a result or an error')
+        n += 1
+        if line.startswith('PANIC') or '"panic"' in line or not line:
+            return dict(found=True, cmd='%s search <<< hex(json)' % BIN, input='4 documents with an i64 field n; aggregation %s' % what,
+                        observed=(line[:200] or 'the process died (exit %s) %s' % (p.returncode, p.stderr[-160:])), expected='a result or an error')
+    return dict(found=False, note='hostile aggregations: %d requests with extreme bounds / intervals / predict come back with a result or an error' % n)
+
+
+# ---------------------------------------------------------------- U21 top_hits and the request sort
+def w_top_hits_sort(failure, tier):
+    """a top_hits aggregation ranked by _score must not depend on what the request sorts its HITS by"""
+    add = {"numeric_fields": [{"name": "year", "i64": True, "fast": True, "stored": True}], "keyword_fields": [{"name": "tag", "stored": True, "indexed": True, "fast": True}]}
+    docs = [{"_id": "d0", "body": "rust filler filler filler filler", "year": 1, "tag": "a"},
+            {"_id": "d1", "body": "rust rust filler", "year": 2, "tag": "a"},
+            {"_id": "d2", "body": "rust rust rust", "year": 3, "tag": "b"},
+            {"_id": "d3", "body": "rust filler", "year": 4, "tag": "b"}]
+    aggs = {"best": {"type": "top_hits", "size": 2}, "by_tag": {"type": "terms", "field": "tag", "size": 5, "aggs": {"top": {"type": "top_hits", "size": 1}}}}
+    reqs = [dict(REQ_BASE, query="rust", limit=10, aggs=aggs), dict(REQ_BASE, query="rust", limit=10, aggs=aggs, sort=[{"field": "year", "order": "asc"}])]
+    n = 0
+    for batches in ([docs], [docs[:2], docs[2:]]):
+        out, err = drive_search({"schema": None, "schema_add": add, "batches": batches, "requests": reqs})
+        if out is None or any('ok' not in o for o in out):
+            return dict(found=False, note='search driver failed: %s' % (err or str(out)[:300]))
+        def tops(o):
+            a = o['ok']['aggregations']
+            return ([(h['doc_id'], round(h.get('score') or 0.0, 4)) for h in a['best']['hits']],
+                    [(b['key'], [(h['doc_id'], round(h.get('score') or 0.0, 4)) for h in b['aggregations']['top']['hits']]) for b in a['by_tag']['buckets']])
+        a, b = tops(out[0]), tops(out[1])
+        n += 1
+        if a != b:
+            return dict(found=True, cmd='%s search <<< hex(json)' % BIN,
+                        input='4 documents matching "rust" with different term frequencies in %d segment(s); aggregations top_hits(size 2) and terms(tag){top_hits(size 1)}; the request once with the default sort and once with sort year asc' % len(batches),
+                        observed='sort year asc: %s' % (b,), expected='%s (what the default sort reports: top_hits ranks by _score)' % (a,))
+    return dict(found=False, note='top_hits: %d layouts, the aggregation is the same whatever the request sorts its hits by' % n)
+
+
+# ---------------------------------------------------------------- U67 cursors and delete-only commits
+def w_stale_cursor(failure, tier):
+    """a cursor taken before a commit that only deletes documents, replayed on a reader opened after it: it must be rejected,
+    like a cursor replayed after a commit that adds documents - and total_hits_estimate must not exceed the matches"""
+    skip = set((failure or {}).get('skip_cases') or [])
+    if 'delete-only-commit-keeps-cursor' in skip:
+        return dict(found=False, note='stale cursors: the case of this generator is an open known finding (skipped)')
+    add = {"numeric_fields": [{"name": "rank", "i64": True, "fast": True, "stored": True}]}
+    docs = [{"_id": x, "body": "alpha", "rank": i} for i, x in enumerate("abcdef")]
+    req = dict(REQ_BASE, query={"type": "match_all"}, limit=2, sort=[{"field": "rank", "order": "asc"}])
+    out, err = drive_search({"schema": None, "schema_add": add, "batches": [docs], "requests": [req], "then_deletes": ["a", "d"],
+                             "then_requests": [dict(req, cursor_from=0), dict(req, limit=100)]})
+    if out is None or len(out) < 3 or 'ok' not in out[0] or 'ok' not in out[2]:
+        return dict(found=False, note='search driver failed: %s' % (err or str(out)[:300]))
+    live = len(out[2]['ok']['hits'])
+    if 'ok' in out[1]:
+        return dict(found=True, cmd='%s search <<< hex(json)' % BIN, case='delete-only-commit-keeps-cursor',
+                    input='documents a..f with rank 0..5 in one segment; match_all sorted by rank, limit 2 -> [a, b] and a cursor; then delete a and d, commit, open a new reader and replay the cursor',
+                    observed='the cursor is accepted: hits %s, total_hits_estimate %s (%d documents match)' % ([h['doc_id'] for h in out[1]['ok']['hits']], out[1]['ok'].get('total_hits_estimate'), live),
+                    expected='a stale-cursor error (the committed state changed), as after a commit that adds documents')
+    return dict(found=False, note='stale cursors: a cursor replayed after a delete-only commit is rejected')
+
+
 # ---------------------------------------------------------------- U19 scripts
 def w_script(failure, tier):
     """script_score with arbitrary small scripts: Ok or Err, never a panic"""
@@ -2242,6 +2374,14 @@ GENERATORS = {
     ('U59', 'upgrade_str'): w_column_upgrade,
     ('U59', 'str_list_push'): w_column_upgrade,
     ('U59', 'str_push'): w_column_upgrade,
+    ('U68', 'histogram_fill'): w_hostile_aggs,
+    ('U68', 'date_histogram_fill'): w_hostile_aggs,
+    ('U68', 'moving_avg_predictions'): w_hostile_aggs,
+    ('U69', 'agg_score_mode'): w_top_hits_sort,
+    ('U67', 'generation_identifies_state'): w_stale_cursor,
+    ('U67', 'cursor_generation'): w_stale_cursor,
+    ('U65', 'writer'): w_two_writers,
+    ('U66', 'queue_document'): w_oversize,
     ('U60', 'open_log'): w_history,
     ('U61', 'cursor_value_fields'): w_pagination,
     ('U61', 'cursor_state_fields'): w_pagination,
@@ -2326,7 +2466,7 @@ GENERATORS = {
     ('U20', 'scan_segment_body'): w_scan,
     ('U20', 'accept_body'): w_scan,
     ('U21', 'scan_score_choice'): w_explain,
-    ('U21', 'score_mode_choice'): w_explain,
+    ('U21', 'score_mode_choice'): lambda failure, tier: (lambda r: r if r.get('found') else w_top_hits_sort(failure, tier))(w_explain(failure, tier)),
     ('U19', 'evaluate'): w_script,
     ('U3', 'commit_fold'): w_history,
     ('U3', 'load_segment_ids'): w_history,
